@@ -4,6 +4,7 @@ ptb_delete_traces, insert_terminals, substitute_terminals, filter_by_length
 and trees.delete_terminal; expectations from reference semantics over the
 token list, written from the docstrings."""
 import io
+import os
 
 from . import common, contracts, gen, model, probe
 
@@ -418,9 +419,24 @@ def run_case(ctx, case, rng):
     params = dict(case.get('params', {}))
     if 'tfile' in case:
         path = ctx.path('.terminals')
-        with io.open(path, 'w') as f:
-            for row in case['tfile']:
-                f.write(case.get('sep', '\t').join(str(x) for x in row) + '\n')
+        text = ''.join(case.get('sep', '\t').join(str(x) for x in row) + '\n'
+                       for row in case['tfile'])
+        import zlib
+        if zlib.crc32(text.encode('utf-8')) % 12 == 0:
+            # how the file is handed over is not part of the input: here it
+            # is a named pipe that another thread fills (the output of zcat,
+            # a process substitution)
+            import threading
+            os.mkfifo(path)
+
+            def feed():
+                with io.open(path, 'w') as f:
+                    f.write(text)
+            threading.Thread(target=feed, daemon=True).start()
+            ctx.stratum('terminal file is a named pipe')
+        else:
+            with io.open(path, 'w') as f:
+                f.write(text)
         params['terminalfile'] = path
     op = case['op']
     out = None
